@@ -44,6 +44,7 @@ MIN_REACH = {
     "growers_running_as_a_non_root_mpi_rank": {"quick": 150, "thorough": 3000},
     "redundant_growers_that_found_the_crop_gone": {"quick": 30, "thorough": 600},
     "schedules_with_megabyte_results": {"quick": 9, "thorough": 40},
+    "schedules_with_batches_of_120_settings": {"quick": 25, "thorough": 200},
     "waiting_reaps_that_would_accept_an_incomplete_crop": {"quick": 200, "thorough": 3000},
 }
 TIME_BUDGET = {"quick": 400, "thorough": 3400}
@@ -78,6 +79,10 @@ CONFIGS = {
     "g3mixed_reaper_cleanup": (4, 2, [1, 2, 1], True, 0),
     # the reaper waits AND would accept an incomplete crop (reap(wait=True, allow_incomplete=True)); batch 1 was finished
     # before anybody started: waiting still means waiting, every value is the direct run's
+    # LONG batches (120 settings each): whatever a grower does between its first and its last setting (progress output,
+    # intermediate saves) must never be taken for a finished result
+    "g1_poller_big": (120, 120, [1], False, 3),
+    "g2_reaper_poller_big": (240, 120, [2, 1], True, 2),
     "g1_reaper_waitinc": (4, 2, [2], True, 0),
     "g2_reaper_waitinc": (6, 2, [3, 2], True, 0),
 }
@@ -104,6 +109,8 @@ def cases(ctx):
     # results that are LARGE arrays (megabytes per result file): the same promise, whatever way the bytes reach the file
     for cfg in ("g1_reaper", "g1_poller", "g2_reaper"):
         yield {"cfg": cfg, "mode": "random", "n": ctx.pick(6, 25), "seed": 77, "kind": "array:140000", "stick": 0.5, "large": True}
+    for cfg in ("g1_poller_big", "g2_reaper_poller_big"):
+        yield {"cfg": cfg, "mode": "random", "n": ctx.pick(25, 200), "seed": 78, "kind": "int", "stick": 0.3, "big": True}
     # seeded random schedules
     rng = ctx.rng("random")
     for i in range(ctx.pick(40, 700)):
@@ -128,6 +135,44 @@ def setup(ctx):
             ctx.count("runs_with_tmpdir_on_another_filesystem")
     except OSError:
         pass
+
+
+class _EnvView(object):
+    """os.environ as each grower PROCESS would see it: the MPI rank variable is per actor (a thread here), whatever the
+    code does before it reads it; everything else is the real environment."""
+
+    def __init__(self, real, var):
+        self._real, self._var = real, var
+
+    def _rank(self):
+        return getattr(threading.current_thread(), "vf_rank", None)
+
+    def __contains__(self, k):
+        return (self._rank() is not None) if k == self._var else (k in self._real)
+
+    def __getitem__(self, k):
+        if k == self._var:
+            if self._rank() is None:
+                raise KeyError(k)
+            return str(self._rank())
+        return self._real[k]
+
+    def get(self, k, d=None):
+        try:
+            return self[k]
+        except KeyError:
+            return d
+
+    def __getattr__(self, n):
+        return getattr(self._real, n)
+
+
+class _OsView(object):
+    def __init__(self, environ):
+        self.environ = environ
+
+    def __getattr__(self, n):
+        return getattr(os, n)
 
 
 class World(object):
@@ -237,7 +282,7 @@ def run_schedule(world, chooser):
                 # (an actor runs undisturbed from here to its first operation on the results directory, and grow() reads
                 #  the rank before that: each grower sees the rank set for it)
                 rank = 1 if j == 0 else 0
-                os.environ[world.mpi] = str(rank)
+                threading.current_thread().vf_rank = rank
                 threading.current_thread().vf_nonroot = rank != 0
                 if rank != 0:
                     nonroot.append(j)
@@ -245,6 +290,7 @@ def run_schedule(world, chooser):
                 xyzpy.grow(i, crop=crop, verbosity=0)
             finally:
                 threading.current_thread().vf_nonroot = False
+                threading.current_thread().vf_rank = None
         return f
     nonroot = []
 
@@ -273,13 +319,16 @@ def run_schedule(world, chooser):
     truth.append(world.complete_results())
     visible.append(world.visible_results())
     writing.append(False)
+    from xyzpy.gen import cropping as _cropping
+    real_os = _cropping.os
+    if world.mpi:
+        _cropping.os = _OsView(_EnvView(os.environ, world.mpi))
     try:
         with quiet():        # one redirection around the whole schedule (quiet() is not thread-safe)
             S.run()
     finally:
         fsshim.set_write_fault(None)
-        if world.mpi:
-            os.environ.pop(world.mpi, None)
+        _cropping.os = real_os
     return {"S": S, "injected": injected, "nonroot": nonroot, "polls": polls, "truth": truth, "visible": visible, "writing": writing, "unmonitored": list(fsshim.UNMONITORED)}
 
 
@@ -359,6 +408,8 @@ def run_case(ctx, case):
         for i in range(case["n"]):
             if case.get("large"):
                 ctx.count("schedules_with_megabyte_results")
+            if case["cfg"].endswith("_big"):
+                ctx.count("schedules_with_batches_of_120_settings")
             ch = sched.RandomChooser(rng, case["stick"])
             obs = run_schedule(world, ch)
             ctx.count("schedules_run")
